@@ -18,6 +18,7 @@ let () =
   | _ :: "doc" :: _ -> L_eval.run_doc ()
   | _ :: "docbase" :: _ -> L_eval.run_doc_base ()
   | _ :: "lex" :: _ -> L_lex.run ()
+  | _ :: "diag" :: _ -> L_diag.run ()
   | _ ->
       prerr_endline "usage: oalmodel <layer>";
       exit 2
